@@ -75,7 +75,13 @@ impl<T> HeaderMatcher<T> {
                 RouteHeaderKind::DoesNotContain(str) => ValueCondition::DoesNotContain(str.clone()),
                 RouteHeaderKind::EndsWith(str) => ValueCondition::EndsWith(str.clone()),
                 RouteHeaderKind::StartsWith(str) => ValueCondition::StartsWith(str.clone()),
-                RouteHeaderKind::MatchRegex(marker) => ValueCondition::MatchRegex(marker.regex.clone()),
+                // Request header values are lowercased when header case is ignored, the regex
+                // has to ignore case too (as every other kind of condition does)
+                RouteHeaderKind::MatchRegex(marker) => ValueCondition::MatchRegex(if marker.ignore_case {
+                    format!("(?i){}", marker.regex)
+                } else {
+                    marker.regex.clone()
+                }),
             };
 
             let header_condition = HeaderCondition {
